@@ -2,7 +2,7 @@ SPECIFICATION Spec
 CONSTANTS
   CB = 1
   TBits = 6
-  Ids = {0, 7, 8, 16, 63}
+  Ids = {0, 8, 16, 63}
   MaxSteps = 5
   ExportHist = FALSE
 INVARIANT Refines
